@@ -373,8 +373,6 @@ func (a *Accounts) SetLockStakeUntilBlock(address types.Address, h uint64) {
 
 func (a *Accounts) GetLockStakeUntilBlock(address types.Address) uint64 {
 	account := a.getOrNew(address)
-	account.lock.RLock()
-	defer account.lock.RUnlock()
 
 	return account.getLockStakeUntilBlock()
 }
